@@ -9,6 +9,7 @@ import (
 	"sort"
 	"strings"
 	"sync"
+	"time"
 
 	ipfslog "berty.tech/go-ipfs-log"
 	"berty.tech/go-ipfs-log/entry"
@@ -270,6 +271,70 @@ func (r *isoRun) foreignTraffic() {
 	}
 }
 
+// burst: the remote writer writes to every database and its heads for all of them arrive on the
+// direct channel back to back, while the replication started by the first message is still held
+// before it has looked at its heads. Afterwards every database must hold its own new entry only.
+func (r *isoRun) burst() {
+	h := sim.TheHub
+	names := append([]string{}, r.in.DBs...)
+	sort.Strings(names)
+	type sent struct {
+		d   *isoDB
+		key string
+		e   ipfslog.Entry
+	}
+	msgs := []sent{}
+	for _, n := range names {
+		d := r.dbs[n]
+		e, err := r.write(d.remote, d)
+		if err != nil {
+			r.violate("write-error", err.Error(), nil, nil)
+			return
+		}
+		msgs = append(msgs, sent{d, fmt.Sprintf("%s-%d", d.name, d.nw), copyEntry(e)})
+	}
+	if err := sim.Settle(settleTimeout, r.rem); err != nil {
+		r.res.Inconclusive = append(r.res.Inconclusive, r.bid+": burst: "+err.Error())
+		return
+	}
+	for _, m := range r.w.Bag() {
+		r.w.Take(m.ID)
+	}
+	first := msgs[0].d.local.S
+	recvBefore := h.Count("direct.recv", r.inst.Bus())
+	h.ParkAt("repl.load.enter", func(args []interface{}) bool { return len(args) > 1 && sim.K(args[1]) == sim.K(first) })
+	for i, m := range msgs {
+		r.w.Deliver(&sim.Msg{Kind: "direct", From: r.rem.P.Name, To: r.inst.P.Name, Payload: headsMsg(m.d.local.Addr, m.e.(*entry.Entry))})
+		if i == 0 {
+			if parkedFor("repl.load.enter", nil, 3*time.Second) == nil {
+				r.res.note("%s: burst: the first replication did not start", r.bid)
+			}
+		}
+	}
+	// every message has been decoded and routed; now the first replication may look at its heads
+	h.WaitFor(2*time.Second, func() bool {
+		return false == (h.CountLocked("direct.recv", r.inst.Bus()) < 0) && len(h.ParkedLocked()) > 0 && h.CountLocked("direct.idle", r.inst.Bus()) > 0
+	})
+	time.Sleep(5 * time.Millisecond)
+	h.ReleaseAll()
+	if err := sim.Settle(settleTimeout, r.inst, r.rem); err != nil {
+		r.violate("interference", "after head exchanges for several databases arrived back to back the instance does not come to rest: "+err.Error(), nil, nil)
+		return
+	}
+	for _, m := range msgs {
+		r.res.Comparisons++
+		for _, e := range m.d.local.S.OpLog().GetEntries().Slice() {
+			if e.GetLogID() != m.d.local.Addr {
+				r.violate("interference", fmt.Sprintf("database %s holds an entry of another database after head exchanges for several databases arrived back to back", m.d.name), m.d.local.Addr, e.GetLogID())
+				return
+			}
+		}
+		if !strings.Contains(","+r.viewOf(m.d)+",", ","+m.key+",") {
+			r.violate("interference", fmt.Sprintf("database %s did not receive its own entry %s when head exchanges for several databases arrived back to back", m.d.name, m.key), m.key, r.viewOf(m.d))
+		}
+	}
+}
+
 func (r *isoRun) run(b Behaviour, idx int) {
 	if err := r.setup(fmt.Sprintf("iso%d", idx)); err != nil {
 		r.res.Inconclusive = append(r.res.Inconclusive, b.ID+": setup: "+err.Error())
@@ -357,6 +422,8 @@ func (r *isoRun) run(b Behaviour, idx int) {
 			r.res.note("%s step %d: database %s holds %d entries, specification %d", b.ID, si, dn, o.Len, want)
 		}
 	}
+	r.step = -2
+	r.burst()
 	r.step = -1
 	r.flush()
 	r.foreignTraffic()
